@@ -2,11 +2,12 @@
 (* Stage (a) for C20: an ideal sampler (exact value of T * (1 + j * u) for the jitter draws u in {-1, -1/2, 0, 1/2, 1},
    floored, then converted to int64 by saturation) satisfies the property on a grid of configurations that includes
    MaxDelay = MaxInt64, jitter > 1 and multiplier < 1.  Mutant = 1: the conversion wraps instead of saturating
-   (negative control).  The second part is the subchannel pacing model. *)
+   (negative control).  The second part is the subchannel pacing model (negative controls: Mutant = 2 skips the
+   wait, Mutant = 3 counts the wait from the start of the failed attempt). *)
 EXTENDS Backoff, TLC
 CONSTANTS Mutant, MaxFail, Big
-VARIABLES kind, x, idx, now, lastDial, lastBo, phase
-vars == <<kind, x, idx, now, lastDial, lastBo, phase>>
+VARIABLES kind, x, idx, now, lastDial, failAt, lastBo, phase
+vars == <<kind, x, idx, now, lastDial, failAt, lastBo, phase>>
 
 \* Big: 0 tiny (negative controls), 1 quick, 2 thorough
 B1 == <<1>>
@@ -31,18 +32,22 @@ Ideal(c, n, k) ==
 Conv(v) == IF Cmp(v, MaxInt64) = 1 THEN (IF Mutant = 1 THEN [neg |-> TRUE, r |-> MaxInt64] ELSE [neg |-> FALSE, r |-> MaxInt64])
            ELSE [neg |-> FALSE, r |-> v]
 
-\* ---- pacing model: one subchannel; time in abstract ticks; bo(i) = lower bound of backoff(i) = i + 1 ticks ----
+\* ---- pacing model: one subchannel; time in abstract ticks; bo(i) = lower bound of backoff(i) = i + 1 ticks.
+\* A connection attempt takes an arbitrary time (Tick is enabled while dialing): it may fail at once, after a part
+\* of the backoff, or after more than the backoff.  "waits at least that backoff before trying again" is measured
+\* from the instant the attempt FAILED (failAt), not from the instant it started (lastDial).
 BoLow(i) == i + 1
-PInit == idx = 0 /\ now = 0 /\ lastDial = 0 /\ lastBo = 0 /\ phase = "idle"
-Dial == phase = "idle" /\ phase' = "dialing" /\ lastDial' = now /\ lastBo' = BoLow(idx) /\ UNCHANGED <<idx, now>>
-Fail == phase = "dialing" /\ idx < MaxFail /\ phase' = "backoff" /\ idx' = idx + 1 /\ UNCHANGED <<now, lastDial, lastBo>>
-\* the backoff timer runs from the start of the attempt (the dial deadline is at least the backoff)
-Expire == phase = "backoff" /\ now >= lastDial + lastBo /\ phase' = "idle" /\ UNCHANGED <<idx, now, lastDial, lastBo>>
-ResetBo == phase = "backoff" /\ phase' = "idle" /\ idx' = 0 /\ lastBo' = 0 /\ UNCHANGED <<now, lastDial>>
-Succeed == phase = "dialing" /\ phase' = "idle" /\ idx' = 0 /\ lastBo' = 0 /\ UNCHANGED <<now, lastDial>>
-Tick == now < 2 * MaxFail + 2 /\ now' = now + 1 /\ UNCHANGED <<idx, lastDial, lastBo, phase>>
+PInit == idx = 0 /\ now = 0 /\ lastDial = 0 /\ failAt = 0 /\ lastBo = 0 /\ phase = "idle"
+Dial == phase = "idle" /\ phase' = "dialing" /\ lastDial' = now /\ lastBo' = BoLow(idx) /\ UNCHANGED <<idx, now, failAt>>
+Fail == phase = "dialing" /\ idx < MaxFail /\ phase' = "backoff" /\ idx' = idx + 1 /\ failAt' = now /\ UNCHANGED <<now, lastDial, lastBo>>
+\* Mutant = 3: the wait is counted from the start of the attempt (the attempt's duration is subtracted from it)
+WaitFrom == IF Mutant = 3 THEN lastDial ELSE failAt
+Expire == phase = "backoff" /\ now >= WaitFrom + lastBo /\ phase' = "idle" /\ UNCHANGED <<idx, now, lastDial, failAt, lastBo>>
+ResetBo == phase = "backoff" /\ phase' = "idle" /\ idx' = 0 /\ lastBo' = 0 /\ UNCHANGED <<now, lastDial, failAt>>
+Succeed == phase = "dialing" /\ phase' = "idle" /\ idx' = 0 /\ lastBo' = 0 /\ UNCHANGED <<now, lastDial, failAt>>
+Tick == now < 3 * MaxFail + 3 /\ now' = now + 1 /\ UNCHANGED <<idx, lastDial, failAt, lastBo, phase>>
 \* Mutant = 2: the backoff wait is skipped
-Skip == Mutant = 2 /\ phase = "backoff" /\ phase' = "idle" /\ UNCHANGED <<idx, now, lastDial, lastBo>>
+Skip == Mutant = 2 /\ phase = "backoff" /\ phase' = "idle" /\ UNCHANGED <<idx, now, lastDial, failAt, lastBo>>
 
 Init == \/ /\ kind = "fn" /\ PInit
            /\ x \in [b : Bases, m : Maxes, mu : Mults, j : Jits, n : Ns, k : Us]
@@ -55,7 +60,7 @@ I_NonNeg == kind = "fn" => Prop_NonNeg(Sample.neg)
 I_Bounds == kind = "fn" =>
   LET c == Cfg(x.b, x.m, x.mu, x.j) s == Sample IN
   /\ Prop_Zero(c, x.n, s.neg, s.r) /\ Prop_Range(c, x.n, s.neg, s.r) /\ Le(s.r, MaxInt64)
-\* a new attempt starts no earlier than the previous attempt's start + the backoff lower bound, unless reset
-I_Pace == kind = "pace" /\ phase = "dialing" => now >= lastDial
-I_PaceStep == [][kind = "pace" /\ phase = "idle" /\ phase' = "dialing" /\ lastBo # 0 => now >= lastDial + lastBo]_vars
+\* a new attempt starts no earlier than the previous attempt's FAILURE + the backoff lower bound, unless reset
+I_Pace == kind = "pace" /\ phase = "backoff" => failAt >= lastDial /\ now >= failAt
+I_PaceStep == [][kind = "pace" /\ phase = "idle" /\ phase' = "dialing" /\ lastBo # 0 => now >= failAt + lastBo]_vars
 ====
